@@ -195,6 +195,7 @@ def _rep_png:
                 + [$c[] | select(.type == "zTXt") | {name: (.keyword|_s), size: (.uncompressed.text | if . == null then -1 else (tobytes | length) end), payload: (.uncompressed.text | _b), h: []}])
     , hdr: ( ($c[0] // {}) | ["width=" + (.width|_s), "height=" + (.height|_s), "bit_depth=" + (.bit_depth|_s), "color_type=" + (.color_type|_a), "interlace=" + (.interlace_method|_a)])
            + ["chunks=" + ([$c[] | .type | _s] | join(","))]
+           + ["trns=" + ([$c[] | select(.type == "tRNS") | (.alpha, .r, .g, .b) | select(. != null) | _s] | join(","))]
     , marks: [$c[] | .crc | _mark] };
 def _rep_gif:
   { members: []
@@ -631,6 +632,32 @@ func buildPNG(rng *rand.Rand, p int, method string, opt []string) built {
 		ihdrEnd := 8 + 12 + 13
 		data = append(append(append([]byte{}, data[:ihdrEnd]...), chunk...), data[ihdrEnd:]...)
 	}
+	// a transparency key (tRNS) for grayscale and truecolour images: Go's encoder writes none, the chunk is made here. The samples are
+	// 2 bytes each whatever the bit depth (PNG specification 11.3.2.1); values fit the image's bit depth.
+	trns := ""
+	if colorType == "0" || colorType == "2" {
+		lim := 1 << uint(bitDepth)
+		vals := []int{5 % lim}
+		if colorType == "2" {
+			vals = []int{1 % lim, (lim - 2 + lim) % lim, 3 % lim}
+		}
+		var body []byte
+		var ss []string
+		for _, v := range vals {
+			body = binary.BigEndian.AppendUint16(body, uint16(v))
+			ss = append(ss, fmt.Sprint(v))
+		}
+		trns = strings.Join(ss, ",")
+		chunk := binary.BigEndian.AppendUint32(nil, uint32(len(body)))
+		chunk = append(chunk, "tRNS"...)
+		chunk = append(chunk, body...)
+		chunk = binary.BigEndian.AppendUint32(chunk, crc32.ChecksumIEEE(chunk[4:]))
+		ihdrEnd := 8 + 12 + 13
+		data = append(append(append([]byte{}, data[:ihdrEnd]...), chunk...), data[ihdrEnd:]...)
+		if _, err := png.Decode(bytes.NewReader(data)); err != nil { // an independent reader accepts the file
+			kit.Fatalf("png with tRNS rejected by image/png: %v", err)
+		}
+	}
 	b.data = data
 	cs := walkPNG(data)
 	var idat []byte
@@ -652,7 +679,7 @@ func buildPNG(rng *rand.Rand, p int, method string, opt []string) built {
 		b.members = append(b.members, member{name: "Comment", payload: ztxt, h: []string{}})
 	}
 	b.hdr = []string{fmt.Sprintf("width=%d", wd), fmt.Sprintf("height=%d", ht), fmt.Sprintf("bit_depth=%d", bitDepth), "color_type=" + colorType, "interlace=0",
-		"chunks=" + strings.Join(names, ",")}
+		"chunks=" + strings.Join(names, ","), "trns=" + trns}
 	c := cs[first]
 	if has(opt, "ztxt") { // the zlib stream is the payload under test
 		for _, x := range cs {
